@@ -130,6 +130,39 @@ def readAddr (a : Bytes) : Bytes × Bytes × Bytes :=
   let scheme := if !sr.1.isEmpty then sr.1 else if port == b!"80" then b!"http" else if port == b!"443" then b!"https" else sr.1
   (scheme, hp.1, port)
 
+/-! ## which site an address text denotes (for the duplicate check of InspectServerBlocks) -/
+
+/-- the path written in a site address (lower-cased, as paths are case-insensitive by default); "" if none -/
+def readPath (a : Bytes) : Bytes :=
+  let rest := (splitScheme (toLower a)).2
+  match indexByte rest 47 with
+  | some i => rest.drop i
+  | none => []
+
+/-- The site an address text denotes: scheme (http unless https is written or implied by port 443), host (IP literals in
+canonical form), port (the default port 2015 if none is written or implied), path. -/
+def denotes (a : Bytes) : Bytes × Bytes × Bytes × Bytes :=
+  let (s, h, p) := readAddr a
+  let h := match parseIP h with | some ip => ipString ip | none => h
+  let p := if p.isEmpty then b!"2015" else p
+  let s := if s.isEmpty then (if p == b!"443" then b!"https" else b!"http") else s
+  (s, h, p, readPath a)
+
+/-- spellings for which the "rejected ⇒ really the same site" direction is claimed: scheme none/http/https, host a name
+or an IPv4 literal (for bracketed IPv6 literals Address.Key drops the port, see docs) -/
+def spellingInScope (a : Bytes) : Bool :=
+  let raw := (splitScheme (toLower a)).1
+  (raw.isEmpty || raw == b!"http" || raw == b!"https") && !hasByte (readAddr a).2.1 58
+
+/-- verdict on what InspectServerBlocks did with a list of address spellings: `accepted` = no duplicate error -/
+def inspectVerdict (spellings : List Bytes) (accepted : Bool) : String :=
+  let ds := spellings.map denotes
+  if accepted then
+    (if ds.Nodup then "ok" else "bad:duplicate-accepted:two spellings of the same site were both accepted")
+  else
+    (if !ds.Nodup || !spellings.all spellingInScope then "ok"
+     else "bad:distinct-rejected:distinct sites were rejected as duplicates")
+
 /-! ## the site-set property -/
 
 /-- what the judge knows about a declared site: from the INPUT the address text, bind and tls variant;
